@@ -53,6 +53,12 @@ def run(ctx):
             seqs = []
             for L in ctx.rng.sample(range(5, 16), ctx.rng.randint(2, 4)):
                 seqs += nc.repertoire(ctx.rng, ctx.rng.randint(5, 14), minlen=L, maxlen=L, maxmut=k + 1, same_length=True, families=2)
+        if eng == "kd" and r % 8 == 1:
+            # one large length bucket (well beyond a tree leaf) at max_edits = 1: every one-substitution pair lies exactly on the
+            # surface of the search ball, and the bucket's tree has many nodes
+            k = 1
+            seqs = nc.repertoire(ctx.rng, 120, letters=sub, minlen=9, maxlen=9, maxmut=2, same_length=True, families=6)
+            seqs += nc.repertoire(ctx.rng, 15, letters=sub, minlen=7, maxlen=7, maxmut=2, same_length=True, families=2)
         ctx.rng.shuffle(seqs)
         if eng == "symdel2":
             q = [ctx.rng.choice(seqs) for _ in range(6)] + [nc.mutate(ctx.rng, ctx.rng.choice(seqs), 1) for _ in range(4)]
